@@ -129,6 +129,16 @@ def jobs(tier, seed):
         sel.append({"pool": "I", "hist": [["asexp", t], ["asexp", t]]})
         sel.append({"pool": "I", "hist": [["norm", "w"], ["asexp_rev", t]]})
         sel.append({"pool": "J", "hist": [["norm", t], ["asexp", t]]})
+    for pool in ("A", "B", "D", "E", "H"):
+        for t in ("e1", "e2", "e3"):
+            # the previous evaluation was at a point that reads like this one position by position (values of x and y exchanged, written y first)
+            for fin in ("at", "fwd", "rev", "early", "diff_early"):
+                sel.append({"pool": pool, "hist": [["at", t, "q"], op(fin, t, "sw")]})
+            if pool in ("D", "E", "H"):
+                # the object (or a shared part of it) was hashed / printed before it was simplified or differentiated
+                for pre in (["hash", t], ["repr", t], ["hash", "s"]):
+                    for fin in ("norm", "asexp", "asexp_rev"):
+                        sel.append({"pool": pool, "hist": [pre, [fin, t]]})
     for t in ("e1", "e3"):
         sel.append({"pool": "F", "hist": [["mk", "P", "partial", t], ["q", "P", "q"], ["qasexp", "P"], ["q", "P", "p"]]})
         sel.append({"pool": "F", "hist": [["at", t, "q"], ["early", t, "p"]]})
